@@ -122,6 +122,36 @@ func TestVerifC33(t *testing.T) {
 				r.Violation("skipped-fits", "input %d was skipped although it fits on top of the returned set %v: %s", i, idx, l)
 			}
 		}
+		// exact clause: replay the consideration order. LargestSet considers the inputs by
+		// ascending weight Σ_k 65536·d[k]²/limit[k]² (stable; the order the Lean theorems
+		// order_perm/order_sorted pin), so a skipped input must not fit on top of the returned
+		// inputs that precede it in that order.
+		if fits {
+			order := c33Order(dims, limit)
+			var acc [FeeDimensions]*big.Int
+			for k := range acc {
+				acc[k] = new(big.Int)
+			}
+			for _, i := range order {
+				if seen[uint64(i)] {
+					for k := 0; k < FeeDimensions; k++ {
+						acc[k].Add(acc[k], new(big.Int).SetUint64(dims[i][k]))
+					}
+					continue
+				}
+				fitsThen := true
+				for k := 0; k < FeeDimensions; k++ {
+					s := new(big.Int).Add(acc[k], new(big.Int).SetUint64(dims[i][k]))
+					if s.Cmp(new(big.Int).SetUint64(limit[k])) > 0 {
+						fitsThen = false
+					}
+				}
+				if fitsThen {
+					r.Violation("skipped-fits-when-considered", "input %d was skipped although it fitted when it was considered (ascending-weight order %v, returned %v): %s", i, order, idx, l)
+					break
+				}
+			}
+		}
 		// non-trivial: some input skipped and some input kept
 		if skipped > 0 && len(idx) > 0 {
 			interleaved = true
@@ -131,6 +161,38 @@ func TestVerifC33(t *testing.T) {
 			r.Count("mixed")
 		}
 	}
+}
+
+// c33Order is the documented consideration order: indices by ascending weight, stable.
+// The weight squares int64(d) and int64(limit) as the code does (values >= 2^63 wrap).
+func c33Order(dims []Dimensions, limit Dimensions) []int {
+	ws := make([]*big.Int, len(dims))
+	sq := func(x uint64) *big.Int {
+		v := big.NewInt(int64(x))
+		return v.Mul(v, v)
+	}
+	for i, d := range dims {
+		w := new(big.Int)
+		for k := 0; k < FeeDimensions; k++ {
+			if limit[k] > 0 {
+				n := sq(d[k])
+				n.Mul(n, big.NewInt(65536))
+				w.Add(w, n.Div(n, sq(limit[k])))
+			}
+		}
+		ws[i] = w
+	}
+	order := make([]int, len(dims))
+	for i := range order {
+		order[i] = i
+	}
+	// insertion sort: stable
+	for i := 1; i < len(order); i++ {
+		for j := i; j > 0 && ws[order[j]].Cmp(ws[order[j-1]]) < 0; j-- {
+			order[j], order[j-1] = order[j-1], order[j]
+		}
+	}
+	return order
 }
 
 func c33Csv(xs []uint64) string {
